@@ -38,8 +38,13 @@ def is_uni(sid: int) -> bool:
     return bool(sid & 2)
 
 
-def check(trace):
+def check(trace, nextlayer=False):
+    """nextlayer: the relay picks a protocol handler per stream lazily (trace entries ("in", "decided", [stream keys]) say
+    when); a stream whose handler is still undecided when its own side terminates it is aborted on that side (FIN +
+    STOP_SENDING to the side that terminated it) -- that is the relay's own shutdown of a never-relayed stream, not a relayed
+    signal, and is accepted.  A RESET is a relayed signal and is never accepted on the stream it came from."""
     viol = []
+    decided = set()
     link = {}  # (side, sid) -> (other side, sid): established pairing (symmetric)
     seen_in = {}  # (side, sid) -> dict(fin=bool, reset=set(codes), first=index)
     in_tags = set()
@@ -99,6 +104,8 @@ def check(trace):
                 seen_in.setdefault((side, sid), {"fin": False, "reset": set(), "first": idx})["reset"].add(code)
             elif kind == "connclosed":
                 connclosed.add(ev[2])
+            elif kind == "decided":
+                decided.update(tuple(k) for k in ev[2])
             continue
 
         kind = ev[1]
@@ -162,7 +169,9 @@ def check(trace):
                 ok = terminated_inputs(src) or src_side in connclosed
             else:  # stop: the pair is being shut down -- some terminating input on either stream of the pair
                 ok = terminated_inputs(src) or terminated_inputs(dst) or bool(connclosed)
-            if not ok:
+            if not ok and term == "reset" and ev[4] in seen_in.get(dst, {"reset": ()})["reset"]:
+                bad("reset-reflected-onto-the-stream-it-came-from", dst=dst, code=ev[4], at=idx)
+            elif not ok:
                 bad(f"{term}-on-stream-whose-pair-received-no-such-signal", dst=dst, pair=src, at=idx)
         else:
             # pair not yet revealed by data: there must be a not-yet-paired stream of the matching class on the other
@@ -184,7 +193,12 @@ def check(trace):
                     cands = [dst]
             if term == "fin" and not cands and src_side in connclosed:
                 cands = ["connclosed"]
-            if not cands:
+            if term == "fin" and not cands and nextlayer and dst not in decided and terminated_inputs(dst):
+                cands = ["abort-of-undecided-stream"]
+                stats["undecided_abort"] = stats.get("undecided_abort", 0) + 1
+            if not cands and term == "reset" and ev[4] in seen_in.get(dst, {"reset": ()})["reset"]:
+                bad("reset-reflected-onto-the-stream-it-came-from", dst=dst, code=ev[4], at=idx)
+            elif not cands:
                 bad(f"{term}-on-unpaired-stream-without-cause", dst=dst, at=idx)
             else:
                 stats["unattributed_term"] += 1  # accepted, but never used to establish a pairing (only tagged data does)
